@@ -85,3 +85,9 @@ contract('DataSender._process_part', module=M, props=['C05'],
                              # a stuffing dot has just been emitted whenever the scan stands behind a b"\\n." inside the part
                              'implies(i > 0 and i < part_len, i >= 2 and substr(part, i - 2, 2) == b"\\n." '
                              '        and len(_yielded) >= 1 and _yielded[len(_yielded) - 1] == b".")'])})
+
+from pyvc.registry import bounded
+bounded(['C05'], 'bounded/data_roundtrip.py',
+        'DataSender composed with DataReader: reader(sender(m)) == m (+ final CRLF), reader stops after the '
+        'end-of-data line and leaves the pipelined bytes, for all messages over {., CR, LF, a} up to length 6 '
+        '(thorough: 8), 2-part splits at line boundaries and several segmentations')
